@@ -19,7 +19,8 @@ from checks import bobbuild_common as bc
 from checks.c05_abort import select, ACTIONS
 
 PROP = "C01"
-WEAK = ["NoPruneOnDigestChange", "DigestIgnoresVars", "InputsIgnoreDep", "PrepIgnoresDigest", "ImportKeepsOld", "DigestIgnoresTool"]
+WEAK = ["NoPruneOnDigestChange", "DigestIgnoresVars", "InputsIgnoreDep", "PrepIgnoresDigest", "ImportKeepsOld", "DigestIgnoresTool",
+        "BoSkipStoresState"]
 
 
 def replay_task(arg):
@@ -58,14 +59,20 @@ def main():
     quick = a.tier == "quick"
     rng = random.Random(a.seed)
     rep.rule = ("behaviour = edit/invocation history from TLC (counterexamples of weakened mechanism models + -simulate "
-                "runs) replayed with real bob invocations in develop/release mode, -j1/-j4; non-trivial = distinct "
-                "(edit-knob sequence, mode, jobs) shapes; evaluations = real bob invocations incl. oracle clean builds")
+                "runs) replayed with real bob invocations in develop/release mode, -j1/-j4, plain/--build-only/--force; "
+                "non-trivial = distinct (edit-knob sequence, mode, jobs) shapes; evaluations = real bob invocations incl. "
+                "oracle clean builds")
     rep.assumptions = ["step scripts are deterministic functions of their declared inputs (generated that way)",
-                       "import SCM sources (with prune), two packages; classes/tools are not in the model yet"]
+                       "import SCM sources (with prune), two packages; --build-only invocations are not judged themselves "
+                       "(no up-to-date promise), only what follows them"]
     num = 100 if quick else 1200
-    jobs = [("main", "BobBuild", "BobBuild_c01.cfg" if quick else "BobBuild_c01_thorough.cfg", dict(coverage=True, timeout=3000))]
+    jobs = [("main", "BobBuild", "BobBuild_c01.cfg" if quick else "BobBuild_c01_thorough.cfg", dict(coverage=True, timeout=3000)),
+            # command line variants (BobBuild.tla Flags): plain / --build-only / --force invocations mixed in one history
+            ("flags", "BobBuild", "BobBuild_c01_flags.cfg" if quick else "BobBuild_c01_flags_thorough.cfg", dict(coverage=True, timeout=3000))]
     jobs += [("weak:" + w, "BobBuild", "BobBuild_c01_weak_%s.cfg" % w, dict(timeout=1800)) for w in WEAK]
-    jobs += [("gen", "BobBuild", "BobBuild_c01_gen.cfg", dict(workers=1, simulate="num=%d" % num, depth=260, seed=a.seed + 1, timeout=900))]
+    jobs += [("gen", "BobBuild", "BobBuild_c01_gen.cfg", dict(workers=1, simulate="num=%d" % num, depth=260, seed=a.seed + 1, timeout=900)),
+             ("genflags", "BobBuild", "BobBuild_c01_gen_flags.cfg",
+              dict(workers=1, simulate="num=%d" % (60 if quick else 600), depth=300, seed=a.seed + 7, timeout=900))]
     out = tlc.run_many(jobs, parallel=5)
     res = out["main"]
     rep.add_tlc(res, "BobBuild exhaustive, no aborts")
@@ -73,6 +80,11 @@ def main():
         rep.violation("model:" + res.violated, {"cex": [c[0] for c in res.cex]})
     tlc.require_coverage(res, [x for x in ACTIONS if x not in ("Kill", "BuRunFail", "BuRunKilled", "PkRunFail", "PkRunKilled", "CoRunFail",
                                                               "CoRunKilled", "PrepInval", "BuInval")], "BobBuild_c01.cfg")
+    resf = out["flags"]
+    rep.add_tlc(resf, "BobBuild exhaustive, invocations plain/--build-only/--force")
+    if resf.violated:
+        rep.violation("model:flags:" + resf.violated, {"cex": [c[0] for c in resf.cex]})
+    tlc.require_coverage(resf, ["CoBoUpdate", "BuSkip", "PkSkip", "BuRunOk", "PkRunOk"], "BobBuild_c01_flags.cfg")
     behaviours = []
     for w in WEAK:
         r = out["weak:" + w]
@@ -88,56 +100,15 @@ def main():
         rep.extra.setdefault("weakened_model_counterexamples", {})[w] = {"found": len(r.printed), "replayed": len(sel)}
         behaviours += [(h, "cex:" + w) for h in sel]
     g = out["gen"]
-    sel = select(g.printed, 36 if quick else 300, rng, need=lambda h: sum(1 for x in h if x["a"] == "End") >= 2)
+    sel = select(g.printed, 28 if quick else 300, rng, need=lambda h: sum(1 for x in h if x["a"] == "End") >= 2)
     behaviours += [(h, "simulate") for h in sel]
     rep.extra["simulated"] = {"generated": len(g.printed), "replayed": len(sel)}
-    cache = common.scratch("vf-c01-oracle-")
-    r = replay_task((0, d["hist"], d.get("origin", "replay"), d.get("mode") == "release", d.get("jobs", 1), cache,
-                     bool(d.get("define")), d.get("prune", True)))
-    for sig, detail in r["violations"]:
-        print("VIOLATION property=%s replay=%s" % (PROP, path))
-        print("  signature: %s" % sig)
-    print("replayed %s: %d violations, drift=%s" % (r["shape"], len(r["violations"]), r["drift"]))
-    return 1 if r["violations"] else 0
-
-
-def main():
-    a = common.args(PROP)
-    if a.replay:
-        return replay_file(a.replay)
-    rep = evidence.Report(PROP, a.tier, a.seed)
-    quick = a.tier == "quick"
-    rng = random.Random(a.seed)
-    rep.rule = ("behaviour = edit/invocation history from TLC (counterexamples of weakened mechanism models + -simulate "
-                "runs) replayed with real bob invocations in develop/release mode, -j1/-j4; non-trivial = distinct "
-                "(edit-knob sequence, mode, jobs) shapes; evaluations = real bob invocations incl. oracle clean builds")
-    rep.assumptions = ["step scripts are deterministic functions of their declared inputs (generated that way)",
-                       "import SCM sources (with prune), two packages; classes/tools are not in the model yet"]
-    res = tlc.run("BobBuild", "BobBuild_c01.cfg" if quick else "BobBuild_c01_thorough.cfg", coverage=True, timeout=3000)
-    rep.add_tlc(res, "BobBuild exhaustive, no aborts")
-    if res.violated:
-        rep.violation("model:" + res.violated, {"cex": [c[0] for c in res.cex]})
-    tlc.require_coverage(res, [x for x in ACTIONS if x not in ("Kill", "BuRunFail", "BuRunKilled", "PkRunFail", "PkRunKilled", "CoRunFail", "CoRunKilled",
-                                                              "PrepInval", "BuInval")] + [], "BobBuild_c01.cfg")
-    behaviours = []
-    for w in WEAK:
-        r = tlc.run("BobBuild", "BobBuild_c01_weak_%s.cfg" % w, timeout=900)
-        if not r.printed:
-            raise tlc.TlcError("weakened model %s produced no counterexample (vacuous weakening)" % w)
-        rep.add_tlc(r, "BobBuild Weak={%s} (counterexample generation)" % w)
-        if w == "ImportKeepsOld":
-            # every single/double source edit of the import SCM (add, modify, modify in a sub-directory, delete)
-            only_src = [h for h in r.printed if all(x["a"] != "Edit" or (x["knob"] == "src" and x["p"] == "lib") for x in h)]
-            sel = select(only_src, 14 if quick else 40, rng)
-        else:
-            sel = select(r.printed, 6 if quick else 30, rng)
-        rep.extra.setdefault("weakened_model_counterexamples", {})[w] = {"found": len(r.printed), "replayed": len(sel)}
-        behaviours += [(h, "cex:" + w) for h in sel]
-    num = 100 if quick else 1200
-    g = tlc.run("BobBuild", "BobBuild_c01_gen.cfg", workers=1, simulate="num=%d" % num, depth=260, seed=a.seed + 1, timeout=900)
-    sel = select(g.printed, 36 if quick else 300, rng, need=lambda h: sum(1 for x in h if x["a"] == "End") >= 2)
-    behaviours += [(h, "simulate") for h in sel]
-    rep.extra["simulated"] = {"generated": len(g.printed), "replayed": len(sel)}
+    gf = out["genflags"]
+    flagged = lambda h: (any(x["a"] == "Begin" and x.get("flag", "plain") != "plain" for x in h)
+                         and sum(1 for x in h if x["a"] == "End") >= 2)
+    self = select(gf.printed, 10 if quick else 150, rng, need=flagged)
+    behaviours += [(h, "simulate-flags") for h in self]
+    rep.extra["simulated_flags"] = {"generated": len(gf.printed), "replayed": len(self)}
     cache = common.scratch("vf-c01-oracle-")
     tasks = []
     for i, (h, origin) in enumerate(behaviours):
